@@ -50,6 +50,8 @@ def gen(rng: random.Random, tier: str):
     for _ in range(reps):
         for name in COMPS:
             yield {"comp": name, "seed": rng.randrange(10**6), "steps": [rng.choice(["retrain", "skip", "retrain", "skip"]) for _ in range(rng.randint(2, 3))]}
+    for _ in range({"quick": 12, "thorough": 300}[tier]):
+        yield {"comp": "pipeline", "seed": rng.randrange(10**6), "steps": []}
 
 def _data(rnd, u0, nu, i0, ni):
     import pandas as pd
@@ -64,13 +66,23 @@ def run(case: dict, lean: Lean) -> Outcome:
         from lenskit.pipeline import PipelineBuilder
         from lenskit.data import ItemList
         from lkv_components import RecordingTrainable as Rec
+        from lkv_components import fn_ident_items
+        kinds = []
         def build():
-            b = PipelineBuilder(); prev = b.create_input("items", ItemList); cs = [Rec() for _ in range(rnd.randint(2, 5))]
-            for k, c in enumerate(cs): prev = b.add_component(f"c{k}", c, items=prev)
+            b = PipelineBuilder(); prev = b.create_input("items", ItemList); cs = []; kinds.clear()
+            for k in range(rnd.randint(2, 6)):
+                if rnd.random() < 0.3: prev = b.add_component(f"c{k}", fn_ident_items, items=prev); kinds.append(False)     # a component that cannot be trained
+                else: c = Rec(); cs.append(c); prev = b.add_component(f"c{k}", c, items=prev); kinds.append(True)
             return b.build(), cs
         st = rnd.getstate(); p, cs = build(); rnd.setstate(st); p2, cs2 = build()
         d = _data(rnd, 100, 6, 1000, 6); seed = rnd.randrange(10**6)
         p.train(d, TrainingOptions(rng=seed)); p2.train(d, TrainingOptions(rng=seed))
+        # the model of the training loop: which nodes are trained, and the spawn key of the seed each one receives
+        log = lean.call("c18.train_all", {"nodes": [[k, t] for k, t in enumerate(kinds)], "seeded": True})
+        want = [int(np.random.default_rng(np.random.SeedSequence(seed, spawn_key=tuple(e["spawn_key"]))).integers(1 << 30)) for e in log]
+        if [e["node"] for e in log] != [k for k, t in enumerate(kinds) if t] or [c.calls[0][0] if c.calls else None for c in cs] != want:
+            failed.append("components did not receive the seeds the training-loop model derives (parent seed spawned once per trainable component, in node order)")
+        if not cs: return Outcome(not failed, not failed, ("pipeline training", "no trainable component"), {"failed": failed}, None)
         if any(len(c.calls) != 1 for c in cs): failed.append("a trainable component was not trained exactly once")
         if len({c.calls[0][0] for c in cs}) != len(cs): failed.append("components received the same derived seed")
         if [c.calls for c in cs] != [c.calls for c in cs2]: failed.append("pipeline training with one seed is not repeatable")
@@ -78,8 +90,15 @@ def run(case: dict, lean: Lean) -> Outcome:
         return Outcome(not failed, not failed, ("pipeline training",), {"failed": failed}, None)
     d = [_data(rnd, 100, 10, 1000, 9), _data(rnd, 105, 8, 1004, 11), _data(rnd, 90, 7, 990, 8)]
     a = _make(case["comp"]); cur = 0; a.train(d[0], TrainingOptions(rng=5)); state = snap(a)
+    # the guard model: which dataset the component's state must come from after every step
+    msteps = [[0, True]]; c0 = 0
+    for k, st in enumerate(case["steps"]):
+        nx = (c0 + 1 + k) % 3; msteps.append([nx, st != "skip"]); c0 = nx if st != "skip" else c0
+    origin = lean.call("c18.guard", {"steps": msteps})
+    fresh_state = {}
     for k, st in enumerate(case["steps"]):
         nxt = (cur + 1 + k) % 3; classes.add("step:" + st)
+        if origin[k + 1] != (cur if st == "skip" else nxt): failed.append("harness and guard model disagree about the data a state comes from"); keys.add("?guard-model")
         if st == "skip":
             a.train(d[nxt], TrainingOptions(rng=6 + k, retrain=False))
             if snap(a) != state: failed.append(f"step {k}: retrain=False changed the trained model"); keys.add("?skip")
@@ -96,6 +115,6 @@ def run(case: dict, lean: Lean) -> Outcome:
     return Outcome(not failed, not failed, tuple(sorted(classes)), {"failed": failed[:6]}, tuple(sorted(keys)) if keys else None)
 
 SPEC = CheckSpec(
-    pid="C18", theorems=[f"LK.Train.C18_Train_{n}" for n in ["skip_is_identity", "retrain_eq_fresh", "trained_once", "seeds_distinct"]], correspondence_ops=[],
+    pid="C18", theorems=[f"LK.Train.C18_Train_{n}" for n in ["skip_is_identity", "retrain_eq_fresh", "trained_once", "seeds_distinct"]], correspondence_ops=["c18.train_all", "c18.guard"],
     nontrivial_rule="distinct (component, training sequence) reaching ≥1 of: each trainable component, skip / retrain steps, pipeline training",
     budgets={"quick": 14, "thorough": 350}, gen=gen, run=run, shrink=None)
